@@ -147,9 +147,10 @@ def off_grid_mw(rng, bases=(0, 300, 500, 500, 700)):
     min_mw = base + rng.randrange(0, 1000) / 1000.0 + 0.00005
     return min_mw, int(round((min_mw - 0.00005) * 10000))
 
-def gen_run(rng, rule='trypsin', exc_on=False):
+def gen_run(rng, rule='trypsin', exc_on=False, sect=False, w2f=False):
     min_mw, mw4 = off_grid_mw(rng)
-    return {'rule': rule, 'exc': ('trypsin_exception' if (exc_on and rule == 'trypsin') else 'None'),
+    extra = (['--selenocysteine-termination'] if sect else []) + (['--w2f-reassignment'] if w2f else [])
+    return {'sect': bool(sect), 'w2f': bool(w2f), 'extra': extra, 'rule': rule, 'exc': ('trypsin_exception' if (exc_on and rule == 'trypsin') else 'None'),
             'k': rng.choice([0, 1, 2, 2, 3]), 'min_mw': min_mw, 'mw4': mw4,
             'min_len': rng.choice([4, 5, 7, 7]), 'max_len': rng.choice([15, 25, 25, 40]),
             'mvpn': -1, 'avpm': -1, 'mnc': 30, 'naa': 5}
@@ -208,13 +209,15 @@ def parse_header(h):
         if f and re.fullmatch(r'\d+', f[-1]):
             idx = int(f[-1]); f = f[:-1]
         tx = f[0] if f else ''
-        ids, orf, other = [], None, []
+        ids, orf, other, alts = [], None, [], []
         for x in f[1:]:
             if re.fullmatch(r'ORF\d+', x):
                 orf = x
             elif re.match(r'(SNV|INDEL|MNV|RES)-', x):
                 ids.append(x)
+            elif re.fullmatch(r'(SECT|W2F)-\d+', x):
+                alts.append(x)          # generated alt-translation identifiers
             else:
                 other.append(x)
-        out.append({'entry': ent, 'tx': tx, 'ids': ids, 'orf': orf, 'index': idx, 'other': other})
+        out.append({'entry': ent, 'tx': tx, 'ids': ids, 'orf': orf, 'index': idx, 'other': other, 'alts': alts})
     return out
